@@ -70,3 +70,71 @@ Proof.
   - apply Forall_forall. intros p Hp. apply repeat_spec in Hp. subst. exact I.
   - constructor.
 Qed.
+
+(* ---- Push completes once in-flight pushes have finished ----
+   "In flight" in the sense that matters: a pusher that has linked its node but not yet published the tail
+   (pc PushAdd or PushStoreTail).  Such a pusher needs at most two steps of its own, unconditionally.  When no pusher
+   is in that window (nlinked = 0), a Push running alone returns after exactly six steps. *)
+Definition solo (i : nat) (o : op) (n : nat) : list (nat * op) := repeat (i, o) n.
+
+Lemma step_at c i o p : nth_error (ths c) i = Some p ->
+  step c (i, o) = let '(s', p', r) := tstep (sh c) p o in
+                  {| sh := s'; ths := upd (ths c) i p'; hist := match r with Some x => hist c ++ [(i, x)] | None => hist c end |}.
+Proof. intros H. unfold step. rewrite H. reflexivity. Qed.
+
+Lemma nth_error_upd_same {A} (l : list A) i x p : nth_error l i = Some p -> nth_error (upd l i x) i = Some x.
+Proof. revert i; induction l as [|a l IH]; intros [|i] H; cbn [upd nth_error] in *; try discriminate; auto; eapply IH; eauto. Qed.
+
+Theorem push_completes c i v :
+  Inv c -> nlinked (ths c) = 0 -> nth_error (ths c) i = Some Idle ->
+  let c' := run c (solo i (OpPush v) 6) in
+  hist c' = hist c ++ [(i, RPush)] /\ nth_error (ths c') i = Some Idle /\
+  q (sh c') = q (sh c) ++ [v] /\ len (sh c') = len (sh c) + 1.
+Proof.
+  intros HI Hnl Hi. cbv zeta. unfold solo. cbn [repeat run fold_left].
+  pose proof (i_len _ HI) as Hlen. rewrite Hnl in Hlen. cbn [Z.to_nat] in Hlen.
+  (* 1: Idle -> PushLoadTail *)
+  rewrite (step_at c i _ Idle Hi). cbn [tstep].
+  set (c1 := {| sh := sh c; ths := upd (ths c) i (PushLoadTail v); hist := hist c |}).
+  assert (H1 : nth_error (ths c1) i = Some (PushLoadTail v)) by (eapply nth_error_upd_same; eauto).
+  rewrite (step_at c1 i _ _ H1). cbn [tstep sh c1].
+  set (c2 := {| sh := sh c; ths := upd (ths c1) i (PushLoadNext v (tail (sh c))); hist := hist c1 |}).
+  assert (H2 : nth_error (ths c2) i = Some (PushLoadNext v (tail (sh c)))) by (eapply nth_error_upd_same; eauto).
+  rewrite (step_at c2 i _ _ H2). cbn [tstep sh c2].
+  assert (Hnx : next_of (sh c) (tail (sh c)) = None).
+  { unfold next_of. destruct (Nat.ltb_spec (S (tail (sh c))) (length (vals (sh c)))); [lia|reflexivity]. }
+  rewrite Hnx.
+  set (c3 := {| sh := sh c; ths := upd (ths c2) i (PushCas v (tail (sh c)) None); hist := hist c2 |}).
+  assert (H3 : nth_error (ths c3) i = Some (PushCas v (tail (sh c)) None)) by (eapply nth_error_upd_same; eauto).
+  rewrite (step_at c3 i _ _ H3). cbn [tstep sh c3]. rewrite Hnx.
+  match goal with |- context [step (step ?X _) _] => set (c4 := X) end.
+  assert (H4 : nth_error (ths c4) i = Some (PushAdd (length (vals (sh c))) v)) by (eapply nth_error_upd_same; eauto).
+  rewrite (step_at c4 i _ _ H4). cbn [tstep sh c4].
+  match goal with |- context [step ?X _] => set (c5 := X) end.
+  assert (H5 : nth_error (ths c5) i = Some (PushStoreTail (length (vals (sh c))) v)) by (eapply nth_error_upd_same; eauto).
+  rewrite (step_at c5 i _ _ H5). cbn [tstep sh c5 hist ths vals head tail len q lin c4 c3 c2 c1].
+  repeat split; try reflexivity.
+  eapply nth_error_upd_same; eauto.
+Qed.
+
+(* a pusher inside the link..publish window leaves it after two steps of its own, whatever the others do in between:
+   its two steps are unconditional *)
+Theorem linked_pusher_publishes c i n v :
+  nth_error (ths c) i = Some (PushAdd n v) ->
+  nth_error (ths (run c (solo i OpPop 2))) i = Some Idle.
+Proof.
+  intros Hi. unfold solo. cbn [repeat run fold_left].
+  rewrite (step_at c i _ _ Hi). cbn [tstep].
+  match goal with |- context [step ?X _] => set (c1 := X) end.
+  assert (H1 : nth_error (ths c1) i = Some (PushStoreTail n v)) by (eapply nth_error_upd_same; eauto).
+  rewrite (step_at c1 i _ _ H1). cbn [tstep ths]. eapply nth_error_upd_same; eauto.
+Qed.
+
+(* a Pop that loses its CAS has been overtaken: the head it loaded is strictly behind the current head, i.e. another
+   Pop linearised after this operation loaded the head — "another operation overlapped it" *)
+Theorem pop_busy_was_overtaken c i h nx : Inv c -> nth_error (ths c) i = Some (PopCas h nx) ->
+  head (sh c) <> h -> (h < head (sh c))%nat.
+Proof.
+  intros HI Hi Hne. pose proof (i_t _ HI) as HT. rewrite Forall_forall in HT.
+  pose proof (HT _ (nth_error_In _ _ Hi)) as Ha. cbn [tassert] in Ha. lia.
+Qed.
